@@ -43,10 +43,14 @@ static double covval(int fam, int gi, int gj) {   // gi<=gj global 0-based row i
     if (d == 0) return 2.0 + 0.25 * (gi % 3);
     if (d == 1) return 0.5 + 0.05 * (gi % 2);
     return 0.2;
-  } else {
+  } else if (fam == 1) {
     static const double s[5] = {1.0, 2.0, 0.5, 1.5, 0.8};
     double r = d == 0 ? 1.0 : (d == 1 ? -0.3 : 0.15);
     return r * s[gi % 5] * s[gj % 5];
+  } else {
+    // family 2, "stiff": diagonal only, variances 1e-4 / 1 / 1e5 by position (weights spread over 9 decades)
+    static const double v[3] = {1e-4, 1.0, 1e5};
+    return d == 0 ? v[(gi + fam - 2) % 3] : 0.0;
   }
 }
 
@@ -335,6 +339,80 @@ static void check_problem(Prob& p, const std::vector<std::vector<double>>& bs, c
   }
 }
 
+
+// ---- badly scaled ("stiff") regular problems: weights spread over 9 decades, rank still unambiguous.
+// Oracle: agreement with the harness's long double reference (Q_ref = N^-1, x_ref = Q_ref A'P b),
+// tolerances scaled by the cofactors (expected accuracy of double: cond(N)*eps ~ 2e-7).
+static void check_stiff(Prob& p, const std::vector<std::vector<double>>& bs) {
+  derive(p);
+  if (p.nullity) return;
+  const int n = p.n, m = p.m;
+  LMat Qr; if (!inverse(p.N, Qr)) return;
+  std::string pk = p.key();
+  L(pk);
+  C("states"); C("stiff_states");
+  std::vector<LD> sq(n); for (int i = 0; i < n; i++) sq[i] = sqrtl(fabsl(Qr(i, i)));
+  LMat AQ = mul(p.A, Qr); LMat Hr = mul(AQ, tr(p.A));
+  for (size_t bi = 0; bi < bs.size(); bi++) {
+    const std::vector<double>& b = bs[bi];
+    // reference solution
+    std::vector<LD> Pb(m, 0), xr(n, 0);
+    for (int i = 0; i < m; i++) for (int k = 0; k < m; k++) Pb[i] += p.P(i, k) * b[k];
+    for (int j = 0; j < n; j++) { LD s = 0; for (int k = 0; k < n; k++) { LD t = 0; for (int i = 0; i < m; i++) t += p.A(i, k) * Pb[i]; s += Qr(j, k) * t; } xr[j] = s; }
+    LD xs = 1; for (LD v : xr) xs = std::max(xs, fabsl(v));
+    Res R4[4];
+    for (int a = 0; a < 4; a++) {
+      std::string cs = pk + ";" + std::to_string(bi) + ";S=all(null);" + ALGN[a];
+      Res R = run(p, b, nullptr, a, bi == 0);
+      C("transitions"); C("evaluations");
+      R4[a] = R;
+      if (!R.ok) { V(std::string("C01|refused-wellposed|") + ALGN[a] + "|stiff", cs, "exception " + R.exc); V(std::string("C02|refused-wellposed|") + ALGN[a] + "|stiff", cs, "exception " + R.exc); continue; }
+      O(std::string("solved:") + ALGN[a] + ":stiff");
+      if (!finite_all(R.x) || !finite_all(R.r) || !std::isfinite(R.rtr)) { V(std::string("C01|nonfinite|") + ALGN[a] + "|stiff", cs, "non finite x/r/rtr"); continue; }
+      if (R.defect != 0) { V(std::string("C01|defect|") + ALGN[a] + "|stiff", cs, "defect " + std::to_string(R.defect) + " for a regular (badly scaled) system"); V(std::string("C20|defect|") + ALGN[a] + "|stiff", cs, "defect reported for a regular system"); }
+      LD ex = 0; for (int j = 0; j < n; j++) ex = std::max(ex, fabsl(R.x[j] - xr[j]));
+      if (ex > 1e-5L * xs) V(std::string("C01|x!=reference|") + ALGN[a] + "|stiff", cs, "max |x - x_ref| = " + str((double)ex) + " scale " + str((double)xs));
+      LD e1 = 0; std::vector<LD> v(m);
+      for (int i = 0; i < m; i++) { LD s = -b[i]; for (int j = 0; j < n; j++) s += p.A(i, j) * R.x[j]; e1 = std::max(e1, fabsl(s - R.r[i])); v[i] = R.r[i]; }
+      if (e1 > 1e-8L * xs) V(std::string("C01|r!=Ax-b|") + ALGN[a] + "|stiff", cs, "max |r-(Ax-b)| = " + str((double)e1));
+      LD vpv = 0; for (int i = 0; i < m; i++) for (int k = 0; k < m; k++) vpv += v[i] * p.P(i, k) * v[k];
+      if (fabsl(vpv - R.rtr) > 1e-6L * std::max<LD>(1e-12L, fabsl(vpv))) V(std::string("C01|rtr|") + ALGN[a] + "|stiff", cs, "rtr " + str(R.rtr) + " v'Pv " + str((double)vpv));
+      if (R.haveQ) {
+        if (!finite_all(R.Q) || !finite_all(R.H) || !finite_all(R.Hs)) { V(std::string("C03|nonfinite|") + ALGN[a] + "|stiff", cs, "non finite cofactor"); continue; }
+        LD eq = 0, es = 0; int wi = 0, wj = 0;
+        for (int i = 0; i < n; i++) for (int j = 0; j < n; j++) {
+          LD d = fabsl(R.Q[i * n + j] - Qr(i, j)) / (sq[i] * sq[j]);
+          if (d > eq) { eq = d; wi = i; wj = j; }
+          es = std::max(es, fabsl((LD)R.Q[i * n + j] - R.Q[j * n + i]) / (sq[i] * sq[j]));
+        }
+        if (eq > 1e-5L) V(std::string("C03|Q!=N^-1|") + ALGN[a] + "|stiff", cs, "q_xx(" + std::to_string(wi + 1) + "," + std::to_string(wj + 1) + ") = " + str(R.Q[wi * n + wj]) + " reference " + str((double)Qr(wi, wj)));
+        if (es > 1e-9L) V(std::string("C03|Q-asymmetric|") + ALGN[a] + "|stiff", cs, "scaled asymmetry " + str((double)es));
+        LD eh = 0; for (int i = 0; i < m; i++) for (int j = 0; j < m; j++) { LD sc = sqrtl(fabsl(Hr(i, i) * Hr(j, j))) + 1e-30L; eh = std::max(eh, fabsl(R.H[i * m + j] - Hr(i, j)) / sc); }
+        if (eh > 1e-5L) V(std::string("C03|qbb!=AQA'|") + ALGN[a] + "|stiff", cs, "scaled max = " + str((double)eh));
+        LMat Hs(m, m); for (int i = 0; i < m; i++) for (int j = 0; j < m; j++) Hs(i, j) = R.Hs[i * m + j];
+        LMat HH = mul(Hs, Hs); LD e = 0, trc = 0, dmin = 1, dmax = 0;
+        for (int i = 0; i < m; i++) { for (int j = 0; j < m; j++) { e = std::max(e, fabsl(HH(i, j) - Hs(i, j))); e = std::max(e, fabsl(Hs(i, j) - Hs(j, i))); } trc += 1 - Hs(i, i); dmin = std::min(dmin, Hs(i, i)); dmax = std::max(dmax, Hs(i, i)); }
+        if (e > 1e-4L) V(std::string("C03|projector-not-idempotent|") + ALGN[a] + "|stiff", cs, "max = " + str((double)e));
+        if (dmin < -1e-4L || dmax > 1 + 1e-4L) V(std::string("C03|projector-diagonal-range|") + ALGN[a] + "|stiff", cs, "diag in [" + str((double)dmin) + "," + str((double)dmax) + "]");
+        if (fabsl(trc - (m - n)) > 1e-4L * m) V(std::string("C03|redundancy-sum|") + ALGN[a] + "|stiff", cs, "sum(1-h_ii) = " + str((double)trc) + " dof " + std::to_string(m - n));
+      }
+    }
+    for (int a = 0; a < 4; a++) for (int c = a + 1; c < 4; c++) {
+      if (!R4[a].ok || !R4[c].ok) continue;
+      C("pairs_compared");
+      std::string cs = pk + ";" + std::to_string(bi) + ";S=all(null);" + ALGN[a] + "+" + ALGN[c];
+      std::string pr = std::string(ALGN[a]) + "~" + ALGN[c];
+      LD ex = 0; for (int j = 0; j < n; j++) ex = std::max(ex, fabsl((LD)R4[a].x[j] - R4[c].x[j]));
+      if (ex > 2e-5L * xs) V("C02|x|" + pr + "|stiff", cs, "max dx " + str((double)ex));
+      if (R4[a].defect != R4[c].defect) V("C02|defect|" + pr + "|stiff", cs, "defects differ");
+      if (R4[a].haveQ && R4[c].haveQ) {
+        LD eq = 0; for (int i = 0; i < n; i++) for (int j = 0; j < n; j++) eq = std::max(eq, fabsl((LD)R4[a].Q[i * n + j] - R4[c].Q[i * n + j]) / (sq[i] * sq[j]));
+        if (eq > 2e-5L) V("C02|q_xx|" + pr + "|stiff", cs, "scaled max dQ " + str((double)eq));
+      }
+    }
+  }
+}
+
 // ---------------------------------------------------------------- enumeration
 static std::vector<std::vector<int>> alphabet(int n) {
   std::vector<std::vector<int>> R;
@@ -398,7 +476,8 @@ int main(int argc, char** argv) {
   if (!c.replay.empty()) {
     Prob p = parse_case(c.replay);
     p.m = (int)p.rows.size();
-    check_problem(p, bvecs(p.m, true), all_subsets(p.n));
+    if (p.lay.fam >= 2) check_stiff(p, bvecs(p.m, true));
+    else check_problem(p, bvecs(p.m, true), all_subsets(p.n));
     return finish();
   }
   // bounds
@@ -437,6 +516,16 @@ int main(int argc, char** argv) {
           Prob p; p.n = n; for (int i : idx) p.rows.push_back(R[i]); p.lay = lays[li];
           check_problem(p, bs, subsets);
           if (c.samples < 2 && p.nullity > 0 && m >= 3) X(p.key());
+        }
+        // the same row set with badly scaled diagonal weights, in 3 cyclic shifts of the weight pattern
+        if (m >= n) for (int sh = 0; sh < 3; sh++) {
+          unit++;
+          if (!mine(unit)) continue;
+          if (expired()) break;
+          Prob p; p.n = n; for (int i : idx) p.rows.push_back(R[i]);
+          // shift the weight pattern by prepending sh empty positions: encode through the block list (dims 1, width 0)
+          p.lay.dim.assign(m, 1); p.lay.width.assign(m, 0); p.lay.fam = 2 + sh;
+          check_stiff(p, bs);
         }
         if (expired()) break;
         int i = m - 1; while (i >= 0 && idx[i] == K - m + i) i--;
